@@ -163,11 +163,30 @@ def run_vec(inp):
   else:
     par = L.AdamP(beta_1=inp["b1"], beta_2=inp["b2"], epsilon=inp["eps"], learning_rate=inp["lr"])
     opt = L.vo.AdamOptimizer(dom, af, inp["n"], optimizer_parameters=par, maxiter=inp["maxiter"])
+  prior = None
+  if inp.get("reuse"):
+    # the same optimiser object has already been used once (searcher only): a call with the domain's own quasi-random starts and NumPy's own
+    # draws; what it evaluated is kept aside (the object's best-so-far legitimately carries over), the recorder is reset for the measured call
+    state = numpy.random.get_state()
+    numpy.random.seed(int(inp["reuse"]))
+    try:
+      real_dom, _ = make_domain(L, inp, new_rec())
+      warm = real_dom.generate_quasi_random_points_in_domain(max(inp["n"], 2)) if hasattr(real_dom, "generate_quasi_random_points_in_domain") else None
+      opt.optimize(selected_starts=warm)
+    except Exception:
+      pass
+    finally:
+      numpy.random.set_state(state)
+    prior = [numpy.array(b).copy() for b in rec["evals"]]
+    fresh = new_rec()
+    for k in list(rec.keys()):
+      rec[k] = fresh[k]
   with scripted_random(inp, rec):
     try:
       best, res = opt.optimize(selected_starts=sel0)
     except ValueError as e:
       return dict(error="ValueError", msg=str(e)[:80], rec=rec)
+  rec["prior_evals"] = prior
   if sel0 is not None and not numpy.array_equal(sel0, sel_copy):
     rec["selected_modified"] = True
   return dict(error=None, best=numpy.array(best, dtype=float), best_value=float(opt.best_value), start=numpy.array(res.starting_points),
@@ -823,6 +842,8 @@ def oracle_scripted(inp):
   for p in allpts:
     if not in_domain(list(p), inp["lb"], inp["ub"], inp["fixed"], inp["cons"]):
       return fail("evaluated-outside-domain", "the acquisition function was evaluated outside the domain", [float(x) for x in p])
+  if rec.get("prior_evals"):   # a re-used optimiser keeps its best-so-far: the best is taken over everything the object ever evaluated
+    allpts = [p for b in rec["prior_evals"] for p in b] + allpts
   vals = [af_exact(inp["af"], p)[0] for p in allpts]
   imax = max(range(len(vals)), key=lambda i: (vals[i], -i))
   if not any(numpy.array_equal(out["best"], p) and v == vals[imax] for p, v in zip(allpts, vals)):
@@ -832,6 +853,13 @@ def oracle_scripted(inp):
     return fail("best-value-not-reproducible", "best_value differs from the acquisition function at best_location", out["best_value"], float(vals[imax]))
   if any(af_exact(inp["af"], p)[0] > vals[imax] for p in rec["routs"][0]):
     return fail("below-restricted-start", "best_value is lower than the value at a restricted starting point")
+  if inp["selected"] is not None and not inp["cons"] and not (inp["kind"] == "de" and inp["maxiter"] >= 1 and len(inp["selected"]) > inp["n"]):
+    # every SUPPLIED start counts, however many there are: on a box the restriction is the coordinate-wise clip followed by the fixed coordinates
+    fx = {int(k): v for k, v in inp["fixed"]}
+    for st in inp["selected"]:
+      q = [fx[j] if j in fx else min(max(x, l), u) for j, (x, l, u) in enumerate(zip(st, inp["lb"], inp["ub"]))]
+      if af_exact(inp["af"], q)[0] > vals[imax]:
+        return fail("below-supplied-start", "best_value is lower than the value at a supplied starting point restricted to the box", [float(x) for x in q], float(vals[imax]))
   want = inp["maxiter"] + 2 if inp["kind"] == "de" else max(inp["maxiter"] - 1, 0) + 1
   if len(rec["evals"]) != want:
     return fail("iteration-count", "number of evaluated batches differs from the iteration count", len(rec["evals"]), want)
@@ -948,6 +976,8 @@ def search(ctx, hints, broken):
   # structured: the corner of the multistart loop (one start, criteria deactivated) and scripted cases
   for _ in range(ctx.n(250, 3000) * (2 if broken else 1)):
     inp = gen_case(rng)
+    if inp["kind"] in ("de", "adam") and rng.random() < 0.3:
+      inp["reuse"] = rng.randrange(1, 10 ** 6)   # second call on an optimiser object that has been used before
     n += 1
     add(oracle(inp))
   for _ in range(ctx.n(200, 3000)):
